@@ -158,6 +158,7 @@ type Trace struct {
 // FlushEnter is recorded by the flush.enter hook point.
 type FlushEnter struct {
 	GroupKey string    `json:"group_key"`
+	Group    string    `json:"group"` // identity of the aggregation group object (one incarnation of the group)
 	At       time.Time `json:"at"`
 }
 
